@@ -102,11 +102,12 @@ func main() {
 	run := ev.Parse("C04", "model_checking")
 	fine := vsched.Mask(vsched.KLock, vsched.KChan, vsched.KAtomic, vsched.KEnv, vsched.KSleep)
 	var jobs []sdrv.Job
+	honour := false
 	add := func(topos []string, alpha []lockh.Prog, shutdown int, cfg vsched.Config) {
 		for _, tn := range topos {
 			topo := lockh.Topologies[tn]
 			for _, ps := range product(alpha, len(topo.LockerOf)) {
-				sc := &lockh.Scenario{Topo: topo, Progs: ps, Shutdown: shutdown, Lease: lease, Residue: true}
+				sc := &lockh.Scenario{Topo: topo, Progs: ps, Shutdown: shutdown, Lease: lease, Residue: true, HonourCtx: honour}
 				c := cfg
 				nC := strings.Count(sc.String(), "C")
 				if !run.Thorough() && c.P > 1 && nC >= 2 {
@@ -128,6 +129,9 @@ func main() {
 		add(two, progs("L", "T", "C", "TT", "LL"), 0, vsched.Config{P: 1, Preempt: fine, MaxSteps: 5000})
 		add([]string{"d"}, progs("L", "T", "C"), -1, vsched.Config{P: 1, Preempt: fine, MaxSteps: 5000})
 		add([]string{"e"}, progs("L", "C"), -1, vsched.Config{P: 1, Preempt: fine, MaxSteps: 5000})
+		honour = true // the same storage, but refusing calls whose context has ended (as networked storages do)
+		add(two, progs("L", "T", "C", "X", "Y"), -1, vsched.Config{P: 1, Preempt: fine, MaxSteps: 5000})
+		honour = false
 		bounds["tiers"] = "3 distinct lockers (3 providers) {L,C}^3 with at most one C, P<=1; 2 workers {L,T,C,X}^2 P<=2; 9-program alphabet P<=1; Shutdown pseudo thread with {L,T,C,TT,LL}^2 P<=1; 3 workers {L,T,C}^3 P<=1"
 	} else {
 		add(two, progs("L", "T", "C", "X", "Y"), -1, vsched.Config{P: 3, Preempt: fine, MaxSteps: 5000})
@@ -135,6 +139,9 @@ func main() {
 		add(two, progs("L", "T", "C", "TT", "LL", "CT"), 0, vsched.Config{P: 2, Preempt: fine, MaxSteps: 5000})
 		add([]string{"d", "e"}, progs("L", "T", "C"), -1, vsched.Config{P: 2, Preempt: fine, MaxSteps: 5000})
 		add([]string{"d"}, progs("L", "T", "C"), 0, vsched.Config{P: 1, Preempt: fine, MaxSteps: 5000})
+		honour = true
+		add(two, progs("L", "T", "C", "X", "Y", "CT", "XL"), -1, vsched.Config{P: 2, Preempt: fine, MaxSteps: 5000})
+		honour = false
 		bounds["tiers"] = "2 workers {L,T,C,X}^2 P<=3; 9-program alphabet P<=2; Shutdown P<=2; 3 workers P<=2 (topologies d,e), with Shutdown P<=1"
 		budget = 12 * time.Minute
 	}
